@@ -1261,6 +1261,30 @@ namespace bloch::runtime {
             for (const auto& v : cls->staticStorage) markValue(v);
         }
         markValue(m_returnValue);
+        // An object may also be owned by something that is not traced: evaluated arguments of a
+        // pending call, a receiver, a 'new' result not stored yet. Count the references held by
+        // the traced graph and keep every object that has more owners than that.
+        std::unordered_map<const Object*, long> traced;
+        auto countRefs = [&traced](const Value& v) {
+            if (v.objectValue)
+                ++traced[v.objectValue.get()];
+            for (const auto& o : v.objectArray) ++traced[o.get()];
+        };
+        for (const auto& scope : m_env) {
+            for (const auto& kv : scope) countRefs(kv.second.value);
+        }
+        for (const auto& kv : m_classTable) {
+            for (const auto& v : kv.second->staticStorage) countRefs(v);
+        }
+        countRefs(m_returnValue);
+        for (const auto& obj : objects) {
+            for (const auto& f : obj->fields) countRefs(f);
+        }
+        for (const auto& obj : objects) {
+            // 'objects' itself holds one reference to each candidate
+            if (obj.use_count() - 1 > traced[obj.get()])
+                markObject(obj);
+        }
         // Sweep unmarked non-tracked objects
         std::vector<std::shared_ptr<Object>> unreachable;
         for (auto& obj : objects) {
